@@ -182,7 +182,7 @@ def one(ctx, rng, ninputs):
 
 def plan(tier, seed):
     quick = tier == "quick"
-    return {"nshards": 16, "params": {"soft_s": 600 if quick else 1800, "nprograms": 150 if quick else 1800, "ninputs": 6 if quick else 14}, "hard_timeout_s": 1200 if quick else 4000}
+    return {"nshards": 16, "params": {"soft_s": 1500 if quick else 5400, "nprograms": 150 if quick else 1800, "ninputs": 6 if quick else 14}, "hard_timeout_s": 2700 if quick else 9000}
 
 
 def shard(ctx):
